@@ -742,6 +742,8 @@ class ParallelProcess(Process):
         self._is_step = process.is_step()
         # Parent-side copy of the process's schema (see the schema property).
         self._schema = process.schema
+        # ... and of its parameters (see the parameters property).
+        self._process_parameters = process.parameters
         self._pending_command: Optional[
             Tuple[str, Optional[tuple], Optional[dict]]] = None
         # Whether the result of the pending command has been received.
@@ -835,7 +837,12 @@ class ParallelProcess(Process):
 
     @property
     def parameters(self) -> Dict[str, Any]:
-        return self.run_command('parameters')
+        # While a command is in flight (e.g. when the process is
+        # emitted during its update) the worker cannot be asked: the
+        # parent keeps the parameters it last saw.
+        if not self._pending_command:
+            self._process_parameters = self.run_command('parameters')
+        return self._process_parameters
 
     @property
     def condition_path(self) -> Optional[HierarchyPath]:
